@@ -374,7 +374,9 @@ def evaluate_assignment(
         vals = {m: score(m, R, P, ndim) for m in metrics}
         if decision_metric is not None:
             s = vals[decision_metric]
-            exact = decision_metric in ("IOU", "DSC", "RVD")
+            # IoU/Dice/RVD are quotients of exact integers; an ASSD of exactly 0.0 (coinciding
+            # borders) is exact in any implementation
+            exact = decision_metric in ("IOU", "DSC", "RVD") or s == 0.0
             if not exact and near(s, decision_threshold):
                 guard = True
             if not meets(decision_metric, s, decision_threshold):
